@@ -34,6 +34,7 @@ type Prog struct {
 	inCallSiteBound int
 	immutableField map[string]bool
 	handoffFns     map[*ssa.Function]bool
+	optCache   map[string]bool
 	baselineNames  map[string]bool // bare names of the functions listed in helpers_baseline.txt (variant builder)
 	freshFn        map[*ssa.Function]bool
 	inlinedSites, removedHelpers []string // variant only: what InlineHelpers did
